@@ -361,6 +361,47 @@ async fn run(ops: Vec<Value>, scratch: PathBuf) -> Value {
                 snap(&scratch, &file, "status.json", &snap_counter);
                 json!({"op": "status_tick", "written": written})
             }
+            "rmdir" => {
+                // somebody removes the key directory (with everything in it) while the agent runs
+                // (entries first, then a plain rmdir(2) with the full path, which the strace leg recognises)
+                let dir = scratch.join("keys");
+                if let Ok(rd) = std::fs::read_dir(&dir) {
+                    for e in rd.flatten() {
+                        // keep a copy for the canary scan (what was in the key store stays a KeyFile observation)
+                        let name = e.file_name().to_string_lossy().to_string();
+                        let label = if name.ends_with(".key") || (name.ends_with(".tmp") && !name.starts_with("status.tag")) {
+                            format!("keyfile.{}", name)
+                        } else {
+                            name
+                        };
+                        snap(&scratch, &e.path(), &label, &snap_counter);
+                        let _ = std::fs::remove_file(e.path());
+                    }
+                }
+                let r = std::fs::remove_dir(&dir);
+                json!({"op": "rmdir", "removed": r.is_ok()})
+            }
+            "cancelled_signer" => {
+                // a requester of the key that is cancelled between queueing its request at the key keeper
+                // actor and receiving the reply: poll the real accessor once by hand, then drop it; repeated, because the actor may win the race on another worker thread
+                let kk = shared.get_key_keeper_shared_state();
+                let mut dropped = 0u32;
+                struct Noop;
+                impl std::task::Wake for Noop {
+                    fn wake(self: Arc<Self>) {}
+                }
+                let waker = std::task::Waker::from(Arc::new(Noop));
+                for _ in 0..200 {
+                    let mut cx = std::task::Context::from_waker(&waker);
+                    let mut fut = Box::pin(kk.get_current_key_guid_and_value());
+                    if std::future::Future::poll(fut.as_mut(), &mut cx).is_pending() {
+                        dropped += 1;
+                    }
+                    drop(fut);
+                }
+                tokio::time::sleep(Duration::from_millis(30)).await;
+                json!({"op": "cancelled_signer", "dropped": dropped})
+            }
             other => {
                 error = Some(format!("unknown op {:?}", other));
                 json!({"op": other})
